@@ -91,6 +91,9 @@ func rhp4Obj[T any](limit int) *Entry {
 			err := rhp4.ReadRequest(r, p.Interface().(rhp4.Object))
 			return Decoded{V: p.Elem(), Err: err, Consumed: len(b) - r.Len()}
 		}
+		e.DecodeInto = func(b []byte, p reflect.Value) error {
+			return rhp4.ReadRequest(bytes.NewReader(b), p.Interface().(rhp4.Object))
+		}
 		return e
 	}
 	e.Via = viaRHP4Res
@@ -110,7 +113,11 @@ func rhp4Obj[T any](limit int) *Entry {
 		err := rhp4.ReadResponse(r, p.Interface().(rhp4.Object))
 		return Decoded{V: p.Elem(), Err: err, Consumed: len(b) - r.Len()}
 	}
+	e.DecodeInto = func(b []byte, p reflect.Value) error {
+		return rhp4.ReadResponse(bytes.NewReader(b), p.Interface().(rhp4.Object))
+	}
 	if t.Name() == "RPCError" {
+		e.DecodeInto = nil
 		// an error response is announced by a leading true and surfaces as the
 		// returned error of ReadResponse (any Object may be passed as the target)
 		e.MaxLen = rhp4ErrLen
